@@ -34,7 +34,17 @@ type c09raw struct {
 	serial int
 	sock   *net.TCPConn
 	tc     *network.TCPConn
-	local  string
+	// in-memory transport (round 7): the peer's end is a LocalConn of the survivor's manager; events g, x, c only
+	lc    *network.LocalConn
+	local string
+}
+
+func (r *c09raw) closeEnd() {
+	if r.lc != nil {
+		r.lc.Close()
+		return
+	}
+	r.sock.Close()
 }
 
 func (w *c09world) rawOpen(p int) []*c09raw { return w.raws[p] }
@@ -99,7 +109,7 @@ func c09sawClose(sock *net.TCPConn, patience time.Duration) bool {
 
 func (w *c09world) rawConn(ps, how string) string {
 	p, err := strconv.Atoi(ps)
-	if err != nil || p <= 0 || !w.tcp || w.tls || w.silentClass || w.useProxy {
+	if err != nil || p <= 0 || w.tls || w.silentClass || w.useProxy || (!w.tcp && (how != "id" || w.lt == nil)) {
 		return "bad-op"
 	}
 	v := w.victim(p)
@@ -117,6 +127,34 @@ func (w *c09world) rawConn(ps, how string) string {
 	w.mu.Lock()
 	opStart := len(w.calls)
 	w.mu.Unlock()
+	if !w.tcp {
+		// in-memory transport: a connection of the survivor's manager whose peer end the harness holds
+		w.tag("rawconn:local")
+		la := network.NewLocalAddress(fmt.Sprintf("127.0.0.1:%d", 25000+p*32+w.rawNext[p]))
+		lc, err := network.NewLocalConnWithManager(w.lt.VerifLocalManager(), la, w.s.ServerIdentity.Address, fix.Suite)
+		if err != nil {
+			w.cs.Fail("harness", "raw peer cannot reach the survivor: "+err.Error())
+			return "harness-error"
+		}
+		if _, err := lc.Send(si); err != nil {
+			w.cs.Fail("harness", "raw peer cannot send its identity: "+err.Error())
+			return "harness-error"
+		}
+		r := &c09raw{serial: w.rawNext[p], lc: lc, local: string(la)}
+		w.rawNext[p]++
+		w.raws[p] = append(w.raws[p], r)
+		go func() {
+			for {
+				if _, err := lc.Receive(); err != nil && !strings.Contains(err.Error(), "not registered") && !strings.Contains(err.Error(), "decoding") {
+					return
+				}
+			}
+		}()
+		if !w.waitTable(p, before+1, c09waitTable) && !w.dead {
+			w.cs.Fail("connection-not-registered", fmt.Sprintf("peer %d connected and sent its identity; the survivor's table holds %d connection(s) with it after %v, expected %d", p, w.connCount(id), c09waitTable, before+1))
+		}
+		return "table=" + w.rawTable(p)
+	}
 	cn, err := net.DialTimeout("tcp", w.s.ServerIdentity.Address.NetworkAddress(), 5*time.Second)
 	if err != nil {
 		w.cs.Fail("harness", "raw peer cannot reach the survivor: "+err.Error())
@@ -197,6 +235,9 @@ func (w *c09world) rawEv(ps, ks, evs string) string {
 	if raw == nil {
 		return "bad-op"
 	}
+	if raw.lc != nil && strings.Trim(evs, "gxc") != "" {
+		return "bad-op" // the in-memory transport knows frames (decodable or not) and the close, nothing else
+	}
 	if strings.ContainsAny(evs, "tuv") {
 		// every idle connection of the survivor runs into the (scaled) read time-out
 		total := w.connCount(w.s2.ServerIdentity.GetID())
@@ -233,10 +274,19 @@ func (w *c09world) rawEv(ps, ks, evs string) string {
 	for _, e := range evs {
 		switch e {
 		case 'g':
-			raw.tc.Send(&C09Msg{V: w.seqNext()})
+			if raw.lc != nil {
+				raw.lc.Send(&C09Msg{V: w.seqNext()})
+			} else {
+				raw.tc.Send(&C09Msg{V: w.seqNext()})
+			}
 			sent++
 			continue
 		case 'x':
+			if raw.lc != nil {
+				// a buffer the survivor cannot decode
+				raw.lc.VerifSendRaw([]byte{0xE7, 0xE7, 0xE7, 0xE7, 0xE7, 0xE7, 0xE7, 0xE7, 0xE7, 0xE7, 0xE7, 0xE7, 0xE7, 0xE7, 0xE7, 0xE7, 0xE7, 0xE7, 0xE7, 0xE7})
+				continue
+			}
 			// a well-formed frame of a type nobody registered
 			body := make([]byte, 24)
 			for i := range body {
@@ -254,7 +304,7 @@ func (w *c09world) rawEv(ps, ks, evs string) string {
 			binary.BigEndian.PutUint32(hdr, uint32(network.MaxPacketSize)+1)
 			raw.sock.Write(hdr)
 		case 'c':
-			raw.sock.Close()
+			raw.closeEnd()
 		case 'p':
 			raw.sock.Write([]byte{0, 0})
 			raw.sock.Close()
@@ -313,7 +363,7 @@ func (w *c09world) rawEv(ps, ks, evs string) string {
 		}
 		w.raws[p] = rest
 		// (a socket the peer has not closed itself — b, t — stays as it is until the verdict is in)
-		defer raw.sock.Close()
+		defer raw.closeEnd()
 	} else {
 		// nothing the peer did ends the connection: give a wrong report a moment to show up
 		time.Sleep(3 * time.Millisecond)
@@ -378,7 +428,7 @@ func (w *c09world) rawEv(ps, ks, evs string) string {
 func (w *c09world) closeRaws() {
 	for _, rs := range w.raws {
 		for _, r := range rs {
-			r.sock.Close()
+			r.closeEnd()
 		}
 	}
 }
